@@ -86,6 +86,24 @@ def build_network(N, topologies, placement, relabel=None):
         net2 = Network()
         net2.G = nx.relabel_nodes(net.G, {v: f"v{v}" for v in net.G.nodes()})
         return net2, jds, rows
+    if relabel == "large-int-labels":
+        # vertex v is called 1000 + v, and every occurrence of a label (node list, each edge end) is a separate int
+        # object: equal, not identical, as in any network with more than 257 vertices
+        import networkx as nx
+        from gcmpy.network.network import Network
+        G = net.G
+        H = nx.Graph()
+        for n in G.nodes():
+            m = int(str(1000 + n))
+            H.add_node(m)
+            H.nodes[m].update(G.nodes[n])
+        for u, v, d in G.edges(data=True):
+            a, b = int(str(1000 + u)), int(str(1000 + v))
+            H.add_edge(a, b)
+            H.edges[a, b].update(d)
+        net2 = Network()
+        net2.G = H
+        return net2, jds, rows
     if relabel == "reversed-insertion":
         # the same annotated network with vertices and edges inserted in the opposite order and every edge given
         # in the opposite orientation (a different, equally valid, networkx representation)
